@@ -42,7 +42,7 @@ def _worker(task):
     modname, part, nparts, seed, tier = task
     mod = common.module(modname)
     sc = G.budget_scale(mod)
-    P = dict((k, G.scaled(v, sc) if isinstance(v, int) else v) for k, v in PARAMS[tier].items())
+    P = G.scaled_params(PARAMS[tier], sc)
     rng = G.task_rng(seed, PROPERTY, modname, part)
     fnd, st = G.Findings(), G.Stats()
     rf = G.relfile(mod)
